@@ -21,6 +21,7 @@ RULE = (
     "state = one (S,T) pair; transition = one execution of persim.bottleneck; non-trivial = the "
     "optimum mixes diagonal and cross pairings, or candidate thresholds tie, or the optimum is "
     "strictly inside the candidate list."
+    " No warning about non-finite deaths on all-finite input."
 )
 ASSUMPTIONS = [
     "oracle: brute force over all partial matchings (oracles/matching.py)",
